@@ -604,7 +604,7 @@ def tee_head_case(case):
 def run(chk):
     rng = chk.rng("grid")
     q = chk.quick()
-    chk.rule = ("history = sequence of (target, record) writes: T in {1,2,3,255,256,257,300,600} distinct targets x access pattern {blocks, "
+    chk.rule = ("history = sequence of (target, record) writes: T in {1,2,3,255,256,257,300,600} (+ deep histories of 1300 / 2100, thorough to 4200) distinct targets x access pattern {blocks, "
                 "round-robin, cyclic over 257 (LRU-adversarial), zipf, revisit-after-gap} x statement kind {tee verb, split -g/-n, DSL tee/emit/emitp/emitf/"
                 "print/printn/dump} x format x mode {>, >>, |} x main-stream tail {none, head -n 2, nothing, tac before}; every produced file is read by an "
                 "independent strict single-document reader and compared by unique ids with the partition model. Non-trivial = T >= 2; distinct by (T, pattern, format, stmt, mode, tail, seed)")
